@@ -23,12 +23,13 @@ func isCellLoad(v ssa.Value, name string) bool {
 }
 
 func runC17(c *Ctx, w *World, r *Report) {
-	names := []string{"sigbits.ShardByPrefix", "sigbits.FirstDiffBits"}
+	names := []string{"sigbits.ShardByPrefix", "sigbits.FirstDiffBits", "sigbits.sFirstDiffBit", "sigbits.get64Bits"}
 	fns, ok := requireFuncs(w, r, names...)
 	ReportScale(w, r, names...)
 	if !ok {
 		return
 	}
+	reportFirstDiff(w, r, fns)
 	r.Rule("R-SHARDSIZE", "a shard boundary is emitted only on the edge (e - s) - maxSize <= 0 and the boundary appended is that same e, together with exactly one prefix length; boundaries start with 0 and the recursion starts as dfs(0, len(keys))")
 	r.Rule("R-LCP", "the prefix length of a shard is the running minimum of len(keys[s]) and firstDiffs[i]>>3 (bits to bytes) over i = s .. e-2: the longest common prefix in bytes")
 	r.Rule("R-SPLIT", "an oversized range is split only at positions i+1 whose common-prefix byte length firstDiffs[i]>>3 is <= the minimum seen so far over i = s .. e-2 (both the strictly-smaller and the equal case are collected), plus the final boundary e; the recursion visits dfs(s, end) for every collected end in order with s advancing to end")
